@@ -526,9 +526,11 @@ where
             .collect();
         let graph_number = &dfs_pre_order;
 
+        // Only vertices reachable from root take part (they are exactly the vertices of the DFS
+        // tree); unreachable vertices have no dominators.
         let mut ancestor: FxHashMap<usize, Option<usize>> = FxHashMap::default();
         let mut label: FxHashMap<usize, usize> = FxHashMap::default();
-        for &vertex in self.vertices.keys() {
+        for &vertex in &dfs_pre_order {
             ancestor.insert(vertex, None);
             label.insert(vertex, dfs_number[&vertex]);
         }
@@ -539,6 +541,10 @@ where
             let mut min_semi = usize::MAX;
 
             for &pred in &self.predecessors[&vertex] {
+                if !dfs_number.contains_key(&pred) {
+                    // predecessor is unreachable from root: no path from root passes through it
+                    continue;
+                }
                 if ancestor[&pred].is_some() {
                     compress(&mut ancestor, &mut label, pred);
                 }
